@@ -21,12 +21,15 @@ static void text_tree(Rng &r, Node &n, int depth, int &budget, bool &big) {
         if (t < 22 && depth < 9) { c.t = r.chance(1, 2) ? V_OBJ : V_ARR; text_tree(r, c, depth + 1, budget, big); }
         else if (t < 40) {
             c.t = V_BYTES; size_t len = r.chance(1, 3) ? r.below(4) : r.below(300);
+            if (r.chance(1, 12)) { static const size_t L[] = {255, 256, 257, 510, 511, 512, 1021, 1022, 1023, 1024, 1533, 2044, 2047, 2048}; len = L[r.below(14)]; }
+            else if (r.chance(1, 20)) len = 300 + r.below(1800);
             if (big && r.chance(1, 2)) { static const size_t L[] = {16380, 16383, 32766, 32769, 65534, 65536, 65537}; len = L[r.below(7)]; big = false; }
             c.s.resize(len); for (auto &x : c.s) x = (uint8_t)r.below(256);
         }
         else if (t < 58) { c.t = V_DBL; c.d = r.chance(1, 3) ? 0x7fe1ccf385ebc8a0ULL : interesting_double(r); }
         else if (t < 72) {
             c.t = V_STR; size_t len = r.below(12);
+            if (r.chance(1, 20)) { static const size_t L[] = {255, 256, 257, 511, 512, 1023, 1024, 1025, 2048, 4000}; len = L[r.below(10)]; }
             bool huge = big && r.chance(1, 2);
             if (huge) { static const size_t L[] = {32764, 32766, 32768, 65534, 65536, 65540}; len = L[r.below(6)]; big = false; }
             c.s.resize(len); for (auto &x : c.s) x = (!huge && r.chance(1, 8)) ? 0 : (uint8_t)('a' + r.below(26));
